@@ -6,22 +6,37 @@ Engine E2 (explicit-state search over call histories).  A history is a sequence 
 (mc.gen.cs_sources.menu: clone, every visibility predicate hiding one type / field / input field /
 directive and pairs, camel-casing, both stacked, every kind of extension document, schema
 directives, fix_type_references) all applied TO THE SAME SOURCE schema.  Every history is replayed
-on a freshly built source (code-built and SDL-built variants); states are canonicalised as
-(structural dump of the source, identity facts of the source) and deduplicated breadth-first.
+on a freshly built source (code-built and SDL-built variants).
 
-Checked on every transition out of a consistent state (source == model, all references closed):
+Which histories: ALL sequences [op1] and [op1, op2] with op1 from the full menu and op2 from the
+representative menu (one operation per operation kind and per kind of hidden type, see
+``representatives``; thorough: op2 from the full quick menu), and -- thorough -- all triples over the
+representative menu.  These are executed whether or not op1 changed the canonical state of the source:
+residue the state key cannot see (caches, shared element objects, registries) must not be pruned.
+Canonical states (structural dump + identity facts + derived indexes + registries + memo) only decide
+whether a sequence is extended by one more representative operation beyond that depth (it is when it
+ends in a state that is new and was not predicted by the model).
+
+Checked for the last operation of every history (every prefix is a history of its own), provided the
+source was consistent before it:
   closure        every reference in the produced schema `is` the registered object (fields,
                  arguments, input fields, interfaces, union members, roots, directive arguments,
-                 the implementations index); removed elements are invisible to introspection and
-                 to queries;
+                 the implementations index, the possible-types and literal-types caches); removed
+                 elements are invisible to introspection and to queries;
   preservation   structural dump of the result == model prediction (mc.ref.cs_predict): the source
                  with exactly the targeted edit, including resolvers, default / type / subscription
                  resolvers, python names, defaults, descriptions, deprecations; for clone and
-                 extensions the fixed query still gives the baseline answer;
-  non-interference  afterwards the source's canonical state is unchanged, it answers the fixed
-                 query, prints, and transforms again with the predicted result.
+                 extensions the fixed query still gives the source's answer; the memoised verdict of
+                 the result agrees with a fresh validation;
+  non-interference  afterwards the source's dump, identity facts, derived indexes, resolver
+                 registries and memo are what they were, it answers the fixed query and prints as
+                 before; and it stays so after the RESULT is tampered with through the resolver
+                 registration API and fix_type_references (shared Field / type objects would leak);
+  history independence (differential)  the result of op_n after op_1..op_n-1 -- dump, identity facts,
+                 derived indexes, registries, memo, or the exception raised -- equals the result of
+                 op_n on a pristine source (after the in-place operations of the prefix only).
 On transitions out of an already corrupted state only crashes are reported (predictions about a
-corrupted source would be meaningless); the search still follows them.
+corrupted source would be meaningless).
 """
 import json
 
@@ -45,9 +60,10 @@ LEVEL_NOTE = (
 )
 DESIGN_REF = "DESIGN.md section 6, C14"
 RULE = (
-    "case = (source variant, first operation); BFS below it to the depth bound; transition = one operation applied to the source in some "
-    "state; execution = one replay of a history on a fresh source; non-trivial = distinct (state, operation) whose operation produced a "
-    "schema that was compared with the model prediction"
+    "case = (source variant, first operation); below it every sequence up to the mandatory length (second / third operation from the "
+    "representative menu), plus one more representative operation after sequences that end in a new canonical state; transition = one "
+    "operation applied to the source; execution = one replay of a history on a fresh source; non-trivial = distinct history whose last "
+    "operation produced a schema that was compared with the model prediction and, for length >= 2, with the pristine-source result"
 )
 ASSUMPTIONS = [
     "apply_schema_directives and fix_type_references work in place by design: for them the source itself is the result and the model of the source is updated",
@@ -57,10 +73,21 @@ ASSUMPTIONS = [
     "names never collide after camel-casing",
 ]
 BOUNDS = {
-    "quick": {"sequence_length": 2, "sources": ["code", "sdl"], "visibility_predicates": "every single type / field / input field / directive + 4 pairs"},
-    "thorough": {"sequence_length": 3, "sources": ["code", "sdl"], "visibility_predicates": "every single type / field / input field / directive + 4 pairs + every pair of types"},
+    "quick": {
+        "sequence_length": 2,
+        "sources": ["code", "sdl"],
+        "first_operation": "full menu (95): every single type / field / input field / directive hidden + 4 pairs, stacked with camel case, clone, camel, 7 extensions, directives, fix",
+        "second_operation": "representative menu: one operation per operation kind, hide-type once per kind of type",
+    },
+    "thorough": {
+        "sequence_length": 3,
+        "sources": ["code", "sdl"],
+        "first_operation": "full menu (160): quick menu + every pair of types hidden together",
+        "second_operation": "full quick menu (95)",
+        "triples": "all triples over the representative menu",
+    },
 }
-TIME_CAP = {"quick": 150, "thorough": 1500}
+TIME_CAP = {"quick": 200, "thorough": 1500}
 
 ROOT = {
     "id": "q1",
@@ -111,14 +138,37 @@ def cases(tier):
             yield {"src": kind, "first": i, "depth": b["sequence_length"], "tier": tier}
 
 
-def _answer(schema, query=FIXED_QUERY):
-    from py_gql import graphql_blocking
+def representatives(sm, menu):
+    """one operation per operation kind; hiding a single type once per kind of type."""
+    seen, out = set(), []
+    for op in menu:
+        key = S.op_kind(op)
+        if op["op"] == "hide" and key == "hide:types" and len(op["types"]) == 1:
+            key += ":" + str(M.kind_of(sm, op["types"][0]))
+        if key in seen:
+            continue
+        seen.add(key)
+        out.append(op)
+    return out
 
-    r = graphql_blocking(schema, query, root=ROOT)
+
+_PARSED = {}
+
+
+def _answer(schema, query=FIXED_QUERY, validate=True):
+    """run a query; validate=False skips document validation (execution only)."""
+    from py_gql import graphql_blocking
+    from py_gql.lang import parse
+
+    if query not in _PARSED:
+        _PARSED[query] = parse(query)
+    kw = {} if validate else {"validators": []}
+    r = graphql_blocking(schema, _PARSED[query], root=ROOT, **kw)
     return json.loads(json.dumps(r.response(), sort_keys=True, default=repr))
 
 
 def _state(schema):
+    """(canonical dump, identity / cache facts, derived indexes + registries + memo)"""
     try:
         d = M.canon(M.dump(schema))
     except Exception as e:  # noqa
@@ -127,7 +177,42 @@ def _state(schema):
         idf = M.identity_facts(schema)
     except Exception as e:  # noqa
         idf = "identity raises %s" % type(e).__name__
-    return d, idf
+    try:
+        der = M.derived_state(schema)
+    except Exception as e:  # noqa
+        der = "derived state raises %s" % type(e).__name__
+    return d, idf, der
+
+
+def _jkey(x):
+    return json.dumps(x, sort_keys=True, default=repr)
+
+
+def _skey(state):
+    """state key for deduplication: without the memo flag, which our own probes (running a query) set."""
+    d, idf, der = state
+    if isinstance(der, dict):
+        der = {k: v for k, v in der.items() if k != "is_valid"}
+    return _jkey((d, idf, der))
+
+
+TAMPER = "sig:root, ctx, info, **kw#tamper"
+
+
+def _tamper(result):
+    """in-place changes of a produced schema through the public API; must never reach the source."""
+    from py_gql.schema import ObjectType
+    from py_gql.schema.fix_type_references import fix_type_references
+
+    fn = M.fn_for(TAMPER)
+    for name, t in list(result.types.items()):
+        if isinstance(t, ObjectType) and not name.startswith("__"):
+            result.register_default_resolver(name, fn, allow_override=True)
+            for f in t.fields:
+                result.register_resolver(name, f.name, fn, allow_override=True)
+                result.register_subscription(name, f.name, fn, allow_override=True)
+    result.default_resolver = fn
+    fix_type_references(result)
 
 
 def _diff_paths(pred, got, path=""):
@@ -202,7 +287,7 @@ def _compare(pred_model, schema):
 
 
 def _introspect_names(schema):
-    r = _answer(schema, cs_ops.INTROSPECTION)
+    r = _answer(schema, cs_ops.INTROSPECTION, validate=False)
     if r.get("errors") or not r.get("data"):
         return None, r.get("errors")
     types = {}
@@ -286,10 +371,59 @@ def _baseline(kind):
     return _BASELINE[kind]
 
 
+def _digest(result, raised, in_place=False):
+    if raised is not None:
+        return {"raises": type(raised).__name__}
+    d, idf, der = _state(result)
+    if in_place and isinstance(der, dict):
+        # the result is the source itself, whose memo flag our own probes (running a query) set
+        der = {k: v for k, v in der.items() if k != "is_valid"}
+    return {"dump": d, "identity": idf, "derived": der}
+
+
+_PRISTINE = {}
+
+
+def _pristine_result(kind, ref_history):
+    """digest of the result of the last operation of ref_history on a pristine source (cached)."""
+    key = (kind, _jkey(ref_history))
+    if key not in _PRISTINE:
+        if len(_PRISTINE) > 4000:
+            _PRISTINE.clear()
+        schema, _ = S.build_source(kind)
+        res, raised = None, None
+        for op in ref_history:
+            try:
+                res = S.run_op(schema, op)
+            except Exception as e:  # noqa
+                res, raised = None, e
+                break
+        _PRISTINE[key] = _digest(res, raised, ref_history[-1]["op"] in S.IN_PLACE)
+    return _PRISTINE[key]
+
+
+def _digest_diff(ref, got):
+    """-> (what differs, detail) or None"""
+    if ref == got:
+        return None
+    if "raises" in ref or "raises" in got:
+        return "raises", "pristine: %s, here: %s" % (ref.get("raises", "returns"), got.get("raises", "returns"))
+    if ref["dump"] != got["dump"]:
+        paths = _diff_paths(ref["dump"], got["dump"]) if isinstance(ref["dump"], dict) and isinstance(got["dump"], dict) else [("dump", ref["dump"], got["dump"])]
+        path, a, b = paths[0]
+        return "dump:" + _attr_key(path), "%s: pristine %r, here %r" % (path, a, b)
+    if ref["identity"] != got["identity"]:
+        return "identity", "pristine %s, here %s" % (ref["identity"][:2], got["identity"][:2])
+    for k in sorted(set(ref["derived"]) | set(got["derived"])) if isinstance(ref["derived"], dict) and isinstance(got["derived"], dict) else ():
+        if ref["derived"].get(k) != got["derived"].get(k):
+            return "derived:" + k, "%s: pristine %r, here %r" % (k, ref["derived"].get(k), got["derived"].get(k))
+    return "derived", "pristine %r, here %r" % (ref["derived"], got["derived"])
+
+
 def run_history(kind, history, st=None, check_last=True):
     """
     Replay ``history`` on a fresh source.  -> (violations, state key after the history, consistent?)
-    Oracles are evaluated for the LAST operation only (earlier prefixes are histories of their own).
+    Oracles are evaluated for the LAST operation only (every prefix is a history of its own).
     """
     _baseline(kind)
     schema, sm = S.build_source(kind)
@@ -301,23 +435,32 @@ def run_history(kind, history, st=None, check_last=True):
     for n, op in enumerate(history):
         last = n == len(history) - 1
         kindname = S.op_kind(op)
+        fam = family(op)
         pred, pm_after = P.predict(pm, op, kind)
         pre_consistent = consistent
+        judged = last and check_last
         before = None
-        if last and check_last and consistent and op["op"] not in S.IN_PLACE:
-            try:
-                before = (_answer(schema), schema.to_string())
-            except Exception as e:  # noqa
-                before = ("raises %s" % type(e).__name__, None)
+        state_before = None
+        if judged and consistent:
+            if op["op"] not in S.IN_PLACE:
+                try:
+                    # execution only: the fixed query is valid against a consistent source by construction
+                    # (self-test); the probe after the operation validates it again
+                    pristine_model = not any(o["op"] in S.IN_PLACE for o in history[:n])
+                    before = (_answer(schema, validate=not pristine_model), schema.to_string())
+                except Exception as e:  # noqa
+                    before = ("raises %s" % type(e).__name__, None)
+            state_before = _state(schema)
         try:
             result = S.run_op(schema, op)
             raised = None
         except Exception as e:  # noqa
             result, raised = None, e
         invalid = P.invalid_reasons(pred) if op["op"] in ("hide", "hide+camel", "directives") else []
-        if last and check_last:
+        if judged:
             if st is not None:
                 st.n("evaluations")
+            digest = _digest(result, raised, op["op"] in S.IN_PLACE)
             if raised is not None:
                 from py_gql.exc import SchemaValidationError
 
@@ -325,7 +468,7 @@ def run_history(kind, history, st=None, check_last=True):
                     if st is not None:
                         st.n("transform_correctly_refuses_invalid_result")
                 elif pre_consistent:
-                    out.append(("operation-fails:%s:%s" % (_norm_exc(raised), family(op)), "%s on a pristine source raises %r" % (op, raised)))
+                    out.append(("operation-fails:%s:%s" % (_norm_exc(raised), fam), "%s raises %r (history %s)" % (op, raised, history[:-1])))
                 else:
                     out.append(
                         (
@@ -337,29 +480,74 @@ def run_history(kind, history, st=None, check_last=True):
                 present = set(result.types) if result is not None else set()
                 invalid_here = [r for r in invalid if r.split(" ")[0].split(".")[0] in present]
                 if invalid_here and op["op"] not in S.IN_PLACE:
-                    out.append(("invalid-result-accepted:%s" % family(op), "%s returns a schema although the predicted result is invalid: %s" % (op, invalid_here)))
+                    out.append(("invalid-result-accepted:%s" % fam, "%s returns a schema although the predicted result is invalid: %s" % (op, invalid_here)))
                 else:
                     if st is not None:
-                        st.nt(("transition", kind, json.dumps(history, sort_keys=True)))
+                        st.nt(("transition", kind, _jkey(history)))
+                    if isinstance(digest.get("derived"), dict) and digest["derived"].get("memo") != "ok":
+                        out.append(("stale-memo:result:%s" % fam, "after %s: %s" % (op, digest["derived"]["memo"])))
                     out.extend(check_result(op, pm, pred, result, schema, st, kind, before))
+            # history independence: same result as on a pristine source
+            if pre_consistent and len(history) > 1:
+                ref_history = [o for o in history[:-1] if o["op"] in S.IN_PLACE] + [op]
+                if ref_history != history:
+                    if st is not None:
+                        st.n("differential_comparisons")
+                    dd = _digest_diff(_pristine_result(kind, ref_history), digest)
+                    if dd is not None:
+                        earlier = [family(o) for o in history[:-1] if o["op"] not in S.IN_PLACE]
+                        out.append(
+                            (
+                                "history-dependent-result:%s-then-%s:%s" % (earlier[0], fam, dd[0]),
+                                "%s after %s differs from the same operation on a pristine source: %s" % (op, history[:-1], dd[1]),
+                            )
+                        )
+            # tamper with the produced schema: nothing of it may be shared with the source
+            if pre_consistent and raised is None and result is not None and result is not schema and op["op"] not in S.IN_PLACE:
+                try:
+                    _tamper(result)
+                except Exception as e:  # noqa
+                    out.append(("result-unusable:%s:%s" % (type(e).__name__, fam), "registering resolvers on the result of %s raises %r" % (op, e)))
         if raised is None and op["op"] in S.IN_PLACE:
             pm = pm_after
+        if not judged and consistent:
+            # between the steps the source is used: run the fixed query (execution only) so that the lazily
+            # filled caches of the source are populated when the next operation comes
+            try:
+                _answer(schema, validate=False)
+            except Exception:  # noqa -- judged when this prefix is a history of its own
+                pass
         # non-interference
         key = _state(schema)
         src_ok = key[0] == M.canon(pm) and key[1] == []
-        if last and check_last and pre_consistent:
+        if judged and pre_consistent:
             if not src_ok:
                 if key[1]:
-                    site = key[1][0][0] if isinstance(key[1], list) else "error"
                     out.append(
                         (
-                            "source-mutated:identity:%s" % family(op),
+                            "source-mutated:identity:%s" % fam,
                             "after %s the SOURCE is no longer closed: %s (%d sites)" % (op, key[1][:2], len(key[1])),
                         )
                     )
                 if key[0] != M.canon(pm):
+                    through = ""
+                    if state_before is not None and op["op"] not in S.IN_PLACE:
+                        through = "-or-through-result"
                     for akey, detail in _compare(pm, schema)[:3]:
-                        out.append(("source-mutated:%s:%s" % (akey, family(op)), "after %s the SOURCE changed: %s" % (op, detail)))
+                        out.append(("source-mutated%s:%s:%s" % (through, akey, fam), "after %s (and registering resolvers on its result) the SOURCE changed: %s" % (op, detail)))
+            elif state_before is not None and op["op"] not in S.IN_PLACE and isinstance(key[2], dict) and isinstance(state_before[2], dict):
+                for k2 in sorted(set(key[2]) | set(state_before[2])):
+                    if key[2].get(k2) != state_before[2].get(k2):
+                        out.append(
+                            (
+                                "source-mutated:derived:%s:%s" % (k2, fam),
+                                "after %s the source's %s changed from %r to %r" % (op, k2, state_before[2].get(k2), key[2].get(k2)),
+                            )
+                        )
+                        src_ok = False
+                        break
+            if isinstance(key[2], dict) and key[2].get("memo") != "ok":
+                out.append(("stale-memo:source:%s" % fam, "after %s: %s" % (op, key[2]["memo"])))
             # the source still answers and prints as it did before the operation
             if before is not None and src_ok:
                 try:
@@ -367,51 +555,63 @@ def run_history(kind, history, st=None, check_last=True):
                 except Exception as e:  # noqa
                     after = ("raises %s" % type(e).__name__, None)
                 if after[0] != before[0]:
-                    out.append(("source-query-differs:%s" % family(op), "after %s the source answers %s instead of %s" % (op, json.dumps(after[0])[:300], json.dumps(before[0])[:200])))
+                    out.append(("source-query-differs:%s" % fam, "after %s the source answers %s instead of %s" % (op, json.dumps(after[0])[:300], json.dumps(before[0])[:200])))
                 elif after[1] != before[1]:
-                    out.append(("source-print-differs:%s" % family(op), "after %s the source prints differently" % (op,)))
-        consistent = consistent and src_ok and raised is None
+                    out.append(("source-print-differs:%s" % fam, "after %s the source prints differently" % (op,)))
+        # a refusal (exception) that leaves the source intact does not end the judged part of the history
+        consistent = consistent and src_ok
     return out, _state(schema), consistent
 
 
-def bfs(case, st):
-    kind, depth = case["src"], case["depth"]
-    menu = S.menu(S.source(kind), case.get("tier", "quick"))
+def explore(case, st):
+    kind, depth, tier = case["src"], case["depth"], case.get("tier", "quick")
+    sm = S.source(kind)
+    menu = S.menu(sm, tier)
+    quick_menu = S.menu(sm, "quick")
+    reps = representatives(sm, quick_menu)
+    second = reps if tier == "quick" else quick_menu
     first = menu[case["first"]]
     out = []
     schema0, _ = S.build_source(kind)
-    root_key = json.dumps(_state(schema0), sort_keys=True, default=repr)
-    seen = {root_key}
-    frontier = []
-    viols, key, cons = run_history(kind, [first], st)
-    st.n("transitions")
-    for cls, detail in viols:
-        out.append((cls, {"src": kind, "history": [first]}, detail))
-    k = json.dumps(key, sort_keys=True, default=repr)
-    if k not in seen:
-        seen.add(k)
-        st.n("states")
+    seen = {_skey(_state(schema0))}
+    ends = []  # (history, state key) of the longest mandatory sequences
+
+    def run(h):
+        st.n("transitions")
+        viols, key, cons = run_history(kind, h, st)
+        for cls, detail in viols:
+            out.append((cls, {"src": kind, "history": h}, detail))
+        k = _skey(key)
+        new = k not in seen
+        if new:
+            seen.add(k)
+            st.n("states")
         st.outcome(k)
-        frontier.append([first])
-    for d in range(1, depth):
-        nxt = []
-        for hist in frontier:
-            for op in menu:
+        # worth extending: a canonical state not seen before that the model did not predict either
+        # (predicted new states, e.g. after apply_schema_directives, are first operations of other cases)
+        return new and not cons
+
+    run([first])
+    for op2 in second:
+        if st.out_of_time():
+            return out
+        new = run([first, op2])
+        if depth == 2 and new:
+            ends.append([first, op2])
+    if depth >= 3 and first in reps:
+        for op2 in reps:
+            for op3 in reps:
                 if st.out_of_time():
                     return out
-                h = hist + [op]
-                st.n("transitions")
-                viols, key, cons = run_history(kind, h, st)
-                for cls, detail in viols:
-                    out.append((cls, {"src": kind, "history": h}, detail))
-                k = json.dumps(key, sort_keys=True, default=repr)
-                if k in seen:
-                    continue
-                seen.add(k)
-                st.n("states")
-                st.outcome(k)
-                nxt.append(h)
-        frontier = nxt
+                if run([first, op2, op3]):
+                    ends.append([first, op2, op3])
+    # beyond the mandatory depth: only sequences that ended in a canonical state not seen before
+    for h in ends:
+        for op in reps:
+            if st.out_of_time():
+                return out
+            st.n("extensions_beyond_mandatory_depth")
+            run(h + [op])
     st.mx("sequence_length_completed", depth)
     return out
 
@@ -420,7 +620,7 @@ def check_case(case, st):
     if case["first"] == 0:
         st.n("states")  # the pristine source
         st.sample({"source": case["src"], "menu": [S.op_kind(o) for o in S.menu(S.source(case["src"]), case.get("tier", "quick"))][:12]})
-    out = bfs(case, st)
+    out = explore(case, st)
     seen, res = {}, []
     for cls, wit, detail in out:
         seen[cls] = seen.get(cls, 0) + 1
